@@ -1,9 +1,17 @@
 #!/bin/sh
-# usage: process_mutant.sh ID PROPS...  : confirm both mutants of /tmp/mut/ID-out (unless confirmed), then run the checks of PROPS against each
+# usage: process_mutant.sh ID PROPS...  : confirm both mutants of /tmp/mut/ID-out in the scratch worktree (default demo build, or
+# build_demo<k>.sh <worktree> <binary> when the sub-agent supplied one), then run the checks of PROPS against each patched copy
 ID=$1; shift
 O=/tmp/mut/$ID-out
-[ -s /var/tmp/runs/confirm-$ID.log ] || sh /verif/tools/confirm_both.sh $ID > /var/tmp/runs/confirm-$ID.log 2>&1
+: > /var/tmp/runs/confirm-$ID.log
 for k in 1 2; do
-  python3 /verif/tools/try_mutant.py $O/mutant$k.diff "$@" > /var/tmp/runs/mut4-$ID-$k.log 2>&1
+  if [ -f $O/build_demo$k.sh ]; then
+    sh /verif/tools/confirm_mutant2.sh $ID $k "sh build_demo$k.sh \$WT ./demo$k.bin >/dev/null 2>&1 && ./demo$k.bin" >> /var/tmp/runs/confirm-$ID.log 2>&1
+  else
+    sh /verif/tools/confirm_mutant.sh $ID $k >> /var/tmp/runs/confirm-$ID.log 2>&1
+  fi
 done
-echo done > /var/tmp/runs/mut4-$ID.done
+for k in 1 2; do
+  python3 /verif/tools/try_mutant.py $O/mutant$k.diff "$@" > /var/tmp/runs/mut5-$ID-$k.log 2>&1
+done
+echo done > /var/tmp/runs/mut5-$ID.done
